@@ -8,7 +8,7 @@ from typing import Dict, List, Optional, Sequence, Tuple
 from ..model import AnchorError, Program, dotted, kw, last_attr, norm, parent, walk_no_nested
 from ..report import Check
 from .binder import Binder, core
-from .common import calls_in, guards_of, need_locals, returns_of
+from .common import calls_in, guards_of, local_assignments, need_locals, returns_of
 
 POSITIONS = ["int", "str", "DEFAULT", "ARGS", "KWARGS", "UNKNOWN"]
 SPEC = {
@@ -270,8 +270,76 @@ def r20_4(prog: Program, chk: Check) -> None:
     chk.ob("R20.4", "type_evaluation::ConditionEvaluator.visit_BoolOp::short-circuit", ok_and and ok_or, prog.site("type_evaluation", bo), "`and` must fail as soon as one operand definitely fails, `or` must succeed as soon as one definitely succeeds")
 
 
+def r20_5(prog: Program, chk: Check) -> None:
+    chk.rule(
+        "R20.5",
+        "version / platform conditions are decided on the interpreter's own value: the operand compared for sys.<name> is sys.<name> itself "
+        "(the whole version tuple, so (3, 12, 0) and (3, 12) compare as Python compares them)",
+        floor=2,
+    )
+    m = "type_evaluation"
+    fn = prog.func(m, "ConditionEvaluator.visit_Compare")
+    from .common import guards_of as _g
+
+    impl0 = [c for c in calls_in(fn, "impl") if len(c.args) == 2 and isinstance(c.args[0], ast.Name)]
+    if not impl0:
+        raise AnchorError("visit_Compare: data.impl(<operand>, <literal>) not found")
+    operand = impl0[0].args[0].id  # type: ignore[attr-defined]
+    found = 0
+    for n in walk_no_nested(fn):
+        if isinstance(n, ast.Assign) and len(n.targets) == 1 and isinstance(n.targets[0], ast.Name) and n.targets[0].id == operand:
+            attr = None
+            for t, inbody in _g(n, fn):
+                if inbody and isinstance(t, ast.Compare) and norm(t.left) == "node.left.attr" and isinstance(t.comparators[0], ast.Constant):
+                    attr = t.comparators[0].value
+            if attr is None:
+                continue
+            found += 1
+            v = n.value
+            if isinstance(v, ast.Call) and last_attr(v) == "tuple" and len(v.args) == 1:
+                v = v.args[0]
+            ok = norm(v) == f"sys.{attr}" or norm(v) in ("getattr(sys, node.left.attr)", f"getattr(sys, '{attr}')")
+            chk.ob("R20.5", f"{m}::ConditionEvaluator.visit_Compare::operand-for-sys.{attr}", ok, prog.site(m, n),
+                   f"the condition on sys.{attr} is decided on `{norm(n.value)}`; the specification compares sys.{attr} itself")
+    if found < 2:
+        raise AnchorError("visit_Compare: operand assignments for sys.platform / sys.version_info not found")
+    impl = [c for c in calls_in(fn, "impl") if len(c.args) == 2]
+    ok = bool(impl) and all(norm(c.args[0]) == operand and norm(c.args[1]).endswith(".val") for c in impl)
+    chk.ob("R20.5", f"{m}::ConditionEvaluator.visit_Compare::compares-operand-with-literal", ok, prog.site(m, fn), f"the comparison must be data.impl({operand}, <literal>.val): runtime value on the left, the literal on the right")
+
+
+def r20_6(prog: Program, chk: Check) -> None:
+    chk.rule(
+        "R20.6",
+        "joining the varmaps of and/or operands: a parameter absent from an operand's varmap is unconstrained there, so either only "
+        "parameters constrained by every operand are kept (intersection of keys) or an absent entry is not read as Never",
+        floor=1,
+    )
+    m = "type_evaluation"
+    fn = prog.func(m, "unite_varmaps")
+    keys_src = local_assignments(fn, "keys")
+    inter = False
+    for a in keys_src:
+        t = norm(a)
+        if "set.intersection(" in t or ".intersection(" in t or "operator.and_" in t:
+            inter = True
+    for n in walk_no_nested(fn):
+        if isinstance(n, ast.AugAssign) and isinstance(n.op, ast.BitAnd) and norm(n.target) == "keys":
+            inter = True
+    gets = [c for c in calls_in(fn, "get") if len(c.args) == 2]
+    bottom_default = any(norm(c.args[1]) in ("NO_RETURN_VALUE", "Never") for c in gets)
+    subscript = any(isinstance(x, ast.Subscript) and norm(x.slice) == "key" for x in ast.walk(fn))
+    if not keys_src and not gets and not subscript:
+        raise AnchorError("unite_varmaps: neither `keys` nor per-key lookups found")
+    chk.ob("R20.6", f"{m}::unite_varmaps::absent-is-not-never", inter or not bottom_default, prog.site(m, fn),
+           "the keys are not restricted to those present in every varmap while an absent entry defaults to Never: for `a == 1 and b == 'x'` the undecided side "
+           "narrows a by the operand that only constrained b to Never, losing member combinations")
+
+
 def run(prog: Program, chk: Check) -> None:
     r20_1(prog, chk)
     r20_2(prog, chk)
     r20_3(prog, chk)
     r20_4(prog, chk)
+    r20_5(prog, chk)
+    r20_6(prog, chk)
